@@ -459,6 +459,86 @@ fn let_release_programs() -> Vec<(&'static str, Vec<f64>, &'static str)> {
 // ---- drop_closure on hand-assembled bytecode (C12): a task closure that captures closures through its upvalue cells is
 // closed, returned by dsp, run and dropped through the FFI handle (the path the scheduler uses); afterwards nothing may
 // stay alive.  Source programs cannot show this (compiled programs leak closures per sample on the pinned tree: F13).
+/// C20 stand-in for the HOST side of a dynamically loaded macro (plugin/loader.rs, DynPluginMacroInfo::get_fn): sequences of
+/// expansions through the real wrapper with an in-process plugin entry point (a copy of the bridge `mimium_export_plugin!`
+/// generates: decode the argument buffer, run the macro, encode the result).  The macro echoes its arguments; a marker string
+/// makes it fail / answer with an empty buffer.  Every call of every sequence that is expected to succeed must return exactly
+/// the arguments of THAT call (seed C20n: state kept between expansions).
+mod loaderseq {
+    use std::ffi::c_void;
+    use mimium_lang::interner::{ToSymbol, TypeNodeId};
+    use mimium_lang::interpreter::Value;
+    use mimium_lang::plugin::MacroFunction;
+    use mimium_lang::plugin::loader::{DynPluginMacroInfo, PluginInstance};
+    use mimium_lang::runtime::ffi_serde::{deserialize_macro_args, serialize_value};
+    use mimium_lang::types::{PType, Type};
+
+    struct Echo;
+    unsafe extern "C" fn bridge(instance: *mut c_void, args_ptr: *const u8, args_len: usize, out_ptr: *mut *mut u8, out_len: *mut usize) -> i32 {
+        if instance.is_null() || args_ptr.is_null() || out_ptr.is_null() || out_len.is_null() { return -3; }
+        unsafe {
+            let args_bytes = std::slice::from_raw_parts(args_ptr, args_len);
+            let args = match deserialize_macro_args(args_bytes) { Ok(a) => a, Err(_) => return -1 };
+            let has = |m: &str| args.iter().any(|(v, _)| matches!(v, Value::String(s) if s.as_str() == m));
+            if has("<fail>") { return -2; }
+            if has("<empty>") { *out_len = 0; *out_ptr = std::ptr::null_mut(); return 0; }
+            let result = Value::Tuple(args.iter().map(|(v, _)| v.clone()).collect());
+            let bytes = match serialize_value(&result) { Ok(b) => b, Err(_) => return -2 };
+            let boxed = bytes.into_boxed_slice();
+            *out_len = boxed.len();
+            *out_ptr = Box::into_raw(boxed) as *mut u8;
+            0
+        }
+    }
+    fn num() -> TypeNodeId { Type::Primitive(PType::Numeric).into_id() }
+    fn string() -> TypeNodeId { Type::Primitive(PType::String).into_id() }
+    /// (arguments, does the expansion succeed)
+    fn arg_lists() -> Vec<(Vec<(Value, TypeNodeId)>, bool)> {
+        let s = |t: &str| (Value::String(t.to_symbol()), string());
+        let n = |x: f64| (Value::Number(x), num());
+        vec![
+            (vec![n(-0.0)], true),
+            (vec![s("kick.wav"), n(1.0), n(2.0)], true),
+            (vec![], true),
+            (vec![s("日本.wav")], true),
+            (vec![(Value::Array(vec![Value::Number(1.0), Value::Number(f64::NAN)]), num()), s("x")], true),
+            (vec![s("<fail>"), n(7.0)], false),
+            (vec![s("<empty>")], false),
+            // a value the HOST refuses to encode
+            (vec![(Value::Store(std::rc::Rc::new(std::cell::RefCell::new(Value::Number(1.0)))), num())], false),
+        ]
+    }
+    pub fn search() -> Option<String> {
+        let lists = arg_lists();
+        let n = lists.len();
+        let mut tried = 0usize;
+        for len in 1..=3usize {
+            let total = n.pow(len as u32);
+            for code in 0..total {
+                let seq: Vec<usize> = (0..len).map(|k| (code / n.pow(k as u32)) % n).collect();
+                let plugin = Box::into_raw(Box::new(Echo));
+                let ty = Type::Function { arg: string(), ret: Type::Tuple(vec![string()]).into_id() }.into_id();
+                let info = unsafe { DynPluginMacroInfo::new("echo".to_symbol(), ty, plugin as *mut PluginInstance, bridge) };
+                let f = info.get_fn();
+                for (pos, &i) in seq.iter().enumerate() {
+                    tried += 1;
+                    let (args, ok) = &lists[i];
+                    let got = (f.borrow())(args);
+                    let want = Value::Tuple(args.iter().map(|(v, _)| v.clone()).collect());
+                    let good = if *ok { super::val_eq(&got, &want) } else { matches!(got, Value::ErrorV(_)) };
+                    if !good {
+                        unsafe { drop(Box::from_raw(plugin)); }
+                        return Some(format!("FOUND value=\"expansion {} of the sequence of argument lists {:?}\" clause=C20[every macro argument decodes to something equal to what was encoded, for every expansion of a sequence] passed {} received {} tried={tried}", pos + 1, seq, super::show(&want), super::show(&got)));
+                    }
+                }
+                drop(f);
+                unsafe { drop(Box::from_raw(plugin)); }
+            }
+        }
+        println!("NONE tried={tried}");
+        None
+    }
+}
 mod dropshared {
     use mimium_lang::mir::OpenUpValue;
     use mimium_lang::runtime::vm::{ClosureIdx, FuncProto, Instruction, Machine, Program};
@@ -1267,6 +1347,10 @@ fn main() {
         } else {
             println!("HOLDS");
         }
+        return;
+    }
+    if args.get(1).map(|s| s.as_str()) == Some("loader-seq") {
+        if let Some(f) = loaderseq::search() { println!("{f}"); }
         return;
     }
     if args.get(1).map(|s| s.as_str()) == Some("module-misc") {
